@@ -848,6 +848,13 @@ impl endpoint::Session for Session {
                 }
             }
 
+            // The echo settles these deliveries: nothing more will refer to
+            // their ids, so the session must not keep them either
+            for delivery_id in &delivery_ids {
+                self.delivery_tag_by_id
+                    .remove(&(disposition.role.clone(), *delivery_id));
+            }
+
             let chunk_inds = consecutive_chunk_indices(&delivery_ids[..]);
 
             let mut dispositions = Vec::with_capacity(chunk_inds.len() + 1);
